@@ -711,3 +711,33 @@ def fold_whole(P, f, name, depth=0):
     if any(v in ("whole", "whole-if-pairs-ok") for v in verdicts):
         return "whole"
     return "unknown"
+
+
+def check_block_sums(P, R, key, rule="ACC.sum"):
+    """A reducer that loops over the per-block partial results adds them up: every in-place update inside the loop over the block list
+    is `+=`, and the accumulators start from zero (a literal 0 / zeros(...) / the first partial result)."""
+    f, key = _site(P, key)
+    du = get_defuse(f, P)
+    prm = f.value_params[0] if f.value_params else None
+    n = 0
+    for lp in [x for x in walk_no_nested(f.node) if isinstance(x, ast.For) and isinstance(x.iter, ast.Name) and x.iter.id == prm]:
+        for st in walk_no_nested(lp):
+            if not isinstance(st, ast.AugAssign):
+                continue
+            b = st.target
+            while isinstance(b, ast.Subscript):
+                b = b.value
+            if not isinstance(b, ast.Name):
+                continue
+            n += 1
+            R.check(isinstance(st.op, ast.Add), rule, key, src(st)[:60], "partial results are added", f"`{src(st)[:50]}` combines the per-block partial results with `{type(st.op).__name__}`: the reduced statistic is not the sum over the blocks", st.lineno)
+            # initial value: the definitions that reach the loop from outside it
+            for d in du.reaching(lp, b.id):
+                if d.how in ("param", "aug") or any(x is d.stmt for x in ast.walk(lp)):
+                    continue
+                v = d.value
+                if isinstance(v, ast.Tuple) and d.index is not None and d.index < len(v.elts):
+                    v = v.elts[d.index]
+                zero = (isinstance(v, ast.Constant) and v.value in (0, 0.0)) or (isinstance(v, ast.Call) and src(v.func).split(".")[-1] in ("zeros", "zeros_like")) or (isinstance(v, ast.Subscript) and isinstance(v.value, ast.Name) and v.value.id == prm and const_value(v.slice) == 0)
+                R.check(zero, rule + "-init", key, f"{b.id} starts from `{src(v)[:30] if v is not None else None}`", "accumulation starts from zero", f"the accumulator {b.id} starts from `{src(v)[:30] if v is not None else None}`, not from zero: the reduced statistic is offset", getattr(d.stmt, "lineno", None))
+    return n
